@@ -59,10 +59,12 @@ fn check_files(cx: &mut Cx, files: &[(String, String)], blame: &[(String, usize)
 			for (file, line, col, msg) in &o.errors
 			{
 				let base = file.rsplit('/').next().unwrap_or(file);
-				match want.iter().find(|(n, _)| n == base)
+				// several statements of one file may be at fault (e.g. a `.global` never defined and its use)
+				let cands: Vec<&(u32, u32)> = want.iter().filter(|(n, _)| n == base).map(|(_, w)| w).collect();
+				match cands.first()
 				{
-					Some((_, w)) if *w == (*line, *col) => (),
-					Some((_, w)) =>
+					Some(_) if cands.iter().any(|w| **w == (*line, *col)) => (),
+					Some(w) =>
 					{
 						cx.report.oracle_fail(input, format!("diagnostic {msg:?} names {file}:{line}:{col}, the statement's first token is at {}:{}", w.0, w.1));
 						return;
@@ -160,6 +162,24 @@ every recorded diagnostic must name main.asm and the line/column of the statemen
 			check_files(cx, &[("main.asm".to_owned(), main_b), ("inc.asm".to_owned(), child_b)],
 				&[("inc.asm".to_owned(), lead.len() + boff), ("main.asm".to_owned(), inc_off)], &dir);
 			cx.report.hit_n("diagnostic position cases around .include", 2);
+		}
+		// diagnostics of statements that were deferred twice (end of their file, then the includer's end / finalize):
+		// they must still name the file and position of the statement itself
+		if i % 5 == 0
+		{
+			let (s1, s2, s3) = (*rng.pick(SEPS), *rng.pick(SEPS), *rng.pick(SEPS));
+			// (c) single file: a name declared .global and never defined, used by a data statement
+			let pre = format!("{s1}.addr 0x100;{s2}.global g_never{i};{s3}");
+			let goff = pre.find(".global").unwrap();
+			let uoff = pre.len();
+			let main_c = format!("{pre}.du16 g_never{i};{s1}NOP;");
+			check_files(cx, &[("main.asm".to_owned(), main_c)], &[("main.asm".to_owned(), goff), ("main.asm".to_owned(), uoff)], &dir);
+			// (d) include: the child imports a name the includer defines only after the include; the value does not fit
+			let lead = format!("{s2}.import g_far{i};{s3}");
+			let child_d = format!("{lead}.du8 g_far{i};{s1}");
+			let main_d = format!("{s1}.addr 0x1F0;{s2}.global g_far{i};{s3}.include \"inc.asm\";{s2}.dstr \"0123456789abcdef0123\";{s3}g_far{i}:{s1}NOP;");
+			check_files(cx, &[("main.asm".to_owned(), main_d), ("inc.asm".to_owned(), child_d)], &[("inc.asm".to_owned(), lead.len())], &dir);
+			cx.report.hit_n("diagnostic position cases of twice-deferred statements", 2);
 		}
 		if cx.report.oracle_failures_total >= 20 {break;}
 	}
